@@ -11,9 +11,12 @@ CONSTANTS
   MaxEx = 3
   ProbeNs <- NoProbes
   ProbeUids <- GUidsX
+  MaxOld = 2
   Exhaustive = TRUE
   Biases <- BiasOne
   TickPct = 0
   ProbePct = 0
+  StalePct = 0
+  ExInj <- InjX
 INVARIANTS Emit
 PROPERTIES StepOfSpec
